@@ -67,4 +67,5 @@ def make_preamble(objs, nsrv=1):
     return pre
 
 def observe(it):
-    return it[0] in ("tx", "chg", "obj")
+    # an SDO frame is claimed by the server: it must never reach the application callback (C09)
+    return it[0] in ("tx", "chg", "obj") or (it[0] == "cb" and it[1] == "canrx")
